@@ -100,7 +100,7 @@ func c14entries() []c14entry {
 		{"FatalContext", "native", func(l slog.Logger, _ *stdslog.Logger, _ *stdlog.Logger, c context.Context) []site { s := here(); l.FatalContext(c, cm, "a", 1); return s }, 0},
 		{"LogAttrs", "native", func(l slog.Logger, _ *stdslog.Logger, _ *stdlog.Logger, c context.Context) []site { s := here(); l.LogAttrs(c, slog.InfoLevel, cm, "a", 1); return s }, 0},
 		{"Logit", "native", func(l slog.Logger, _ *stdslog.Logger, _ *stdlog.Logger, c context.Context) []site { s := here(); l.Logit(c, slog.WarnLevel, cm, "a", 1); return s }, 0},
-		{"Log(std)", "native", func(l slog.Logger, _ *stdslog.Logger, _ *stdlog.Logger, c context.Context) []site { s := here(); l.Log(c, stdslog.LevelInfo, cm, "a", 1); return s }, 0},
+		{"Log(std)", "native", func(l slog.Logger, _ *stdslog.Logger, _ *stdlog.Logger, c context.Context) []site { s := here(); l.Log(c, stdslog.LevelInfo, cm, "a", 1, stdslog.Int("n", 2)); return s }, 0},
 		{"Infof", "native", func(l slog.Logger, _ *stdslog.Logger, _ *stdlog.Logger, c context.Context) []site { s := here(); _ = l.Infof("%s", cm); return s }, 0},
 		{"Warnf", "native", func(l slog.Logger, _ *stdslog.Logger, _ *stdlog.Logger, c context.Context) []site { s := here(); _ = l.Warnf("%s", cm); return s }, 0},
 		{"Errorf", "native", func(l slog.Logger, _ *stdslog.Logger, _ *stdlog.Logger, c context.Context) []site { s := here(); _ = l.Errorf("%s", cm); return s }, 0},
@@ -319,8 +319,19 @@ func c14sites(c *Ctx) {
 		var bl *stdlog.Logger
 		switch e.kind {
 		case "slogadapter", "slogadapter-default":
+			// the logger under the adapter has context keys registered in every other cell (before or after the handler
+			// was built): where a record's values come from has nothing to do with where its statement is
+			if idx%4 == 1 {
+				target.SetContextKeys("rid", "uid")
+			}
 			h := slog.NewSlogHandler(target, &slog.HandlerOptions{NoColor: cl.f != FColor, JSON: cl.f == FJSON, Level: slog.DebugLevel})
 			sl = stdslog.New(h)
+			if idx%4 == 3 {
+				target.SetContextKeys("rid")
+			}
+			if idx%2 == 1 {
+				c.R.Add("adapter_cells_over_a_logger_with_context_keys", 1)
+			}
 			if e.kind == "slogadapter-default" {
 				stdslog.SetDefault(sl)
 			}
